@@ -67,8 +67,12 @@ private:
         }
         if (m_matrix_operator.cols() < m_initial_search_space_size + m_correction_size)
         {
-            m_initial_search_space_size = m_matrix_operator.cols() / 3;
-            m_correction_size = m_matrix_operator.cols() / 3;
+            // The convergence test needs nev Ritz pairs, so the initial search space cannot be
+            // smaller than nev, and there must be room for at least one correction vector
+            // (nev <= n - 1 has been checked)
+            const Index n = m_matrix_operator.cols();
+            m_initial_search_space_size = (std::max)(n / 3, m_number_eigenvalues);
+            m_correction_size = (std::max)(Index(1), (std::min)(n / 3, n - m_initial_search_space_size));
         }
     }
 
